@@ -214,6 +214,11 @@ func (p c10) Run(t *testing.T, c *Case, s Sched, keepLog bool) *Obs {
 		agg.Sched.Policy = o.Sched.Policy
 	}
 	agg.Res.ILHash = h
+	if agg.Res.Probes == nil {
+		agg.Res.Probes = map[string]int{}
+	}
+	agg.Res.Probes["fault-positions-enumerated"] += len(live.Subs)
+	agg.Res.Probes["single-fault-spaces-enumerated-completely"]++
 	agg.SubRuns = len(live.Subs) + 1
 	agg.Live = live
 	agg.Dump = fmt.Sprintf("enumerated %d fault positions", len(live.Subs))
